@@ -210,7 +210,7 @@ def gen_cases(ctx, pms, rng, per_version):
             return
         # composeinfo
         for version in DV.COMPOSEINFO_VERSIONS:
-            force = ["depth-3", "layered", "layered-product-variant", "all-variant-types", "dashed-top-prefix-of-sibling", None][i % 6]
+            force = ["depth-3", "layered", "layered-product-variant", "all-variant-types", "dashed-top-prefix-of-sibling", "many-variants", None][i % 7]
             D = FC.gen_description(rng, force, hostile=False)
             textin, E = DV.composeinfo(D, version, rng)
             case = {"fmt": "composeinfo", "version": version, "document": textin}
@@ -248,7 +248,7 @@ def gen_cases(ctx, pms, rng, per_version):
                 ctx.sample({"fmt": "rpms", "version": version, "document": json.loads(textin)})
         # treeinfo
         for version in DV.TREEINFO_VERSIONS:
-            force = ["src-tree", "depth-3", "child-every-type", "images", "media", "stage2", "checksums", "layered", None][i % 9]
+            force = ["src-tree", "depth-3", "child-every-type", "images", "media", "stage2", "checksums", "layered", "many-variants", None][i % 10]
             D = FT.gen_description(rng, force, hostile=(i % 4 == 0 and version != "0.0"))
             if DV.vt(version) <= (0, 3):
                 prune_id_collisions(D)
